@@ -925,3 +925,42 @@ class WriteFpgaReg:
                 and kw[3][0] == "data" and seq_len(kw[3][1]) == 4
                 and select(kw[3][1], 0) + 256 * select(kw[3][1], 1) + 65536 * select(kw[3][1], 2) + 16777216 * select(kw[3][1], 3) == value
                 and kw[4] == ("expected_args", 0))
+
+
+# ---- the BMP's version: one request to the board named, the reply's fields as they are ----------------------------------------------------
+def _bmp_sver_send(E, obj, args, kwargs, st, node):
+    s = st.copy()
+    s.trace = ListV(s.trace.items + (("bmp_command",) + tuple(args) + (tuple(sorted(kwargs.items())),),))
+    return [(s, ObjV("SCPPacket", {"arg1": st.env["g_arg1"], "arg2": st.env["g_arg2"], "arg3": st.env["g_arg3"]}), None)]
+
+
+def _bmp_unpack(E, args, kwargs, st, node):
+    return [(st, (z3.IntVal(101), z3.IntVal(102), z3.IntVal(103)))]
+
+
+def _bmp_info(E, args, kwargs, st, node):
+    names = ("code_block", "frame_id", "can_id", "board_id", "version", "buffer_size", "build_date", "version_string", "version_labels")
+    return [(st, ObjV("BMPInfo", dict(zip(names, args))))]
+
+
+@contract("rig/machine_control/bmp_controller.py::BMPController.get_software_version")
+class BMPSoftwareVersion:
+    """one version request to exactly the (cabinet, frame, board) resolved for the call; the reply's first argument is code block,
+    frame id, CAN id and board id byte by byte, the low half of the second the buffer size, the third the build date"""
+    properties = ("C18",)
+    params = dict(self=TRec("BMPController"), cabinet=TInt(0, 255), frame=TInt(0, 255), board=TInt(0, 23),
+                  g_arg1=TInt(0, 0xffffffff), g_arg2=TInt(0, 0xffffffff), g_arg3=TInt(0, 0xffffffff))
+    externals = {"BMPController._send_scp": _bmp_sver_send, "def:unpack_sver_response_version": _bmp_unpack, "class:BMPInfo": _bmp_info}
+    options = {"decorators": {"use_contextual_arguments": "identity"}, "int_class": "rig/machine_control/consts.py::SCPCommands"}
+    assumptions = ["use_contextual_arguments as the identity; _send_scp (BMPSendScp) is recorded and returns an arbitrary reply; the version text "
+                   "decoder and the BMPInfo constructor are opaque: which value goes into which field is what is checked"]
+
+    def native(x):
+        raise __import__("pyvc.replay", fromlist=["OutsideHarness"]).OutsideHarness()
+
+    def ensures_one_request_to_the_board_named_and_the_reply_decoded(cabinet, frame, board, g_arg1, g_arg2, g_arg3, result, _trace):
+        return (len(_trace) == 1 and _trace[0] == ("bmp_command", cabinet, frame, board, 0, ())
+                and result.code_block == g_arg1 // 2 ** 24 and result.frame_id == (g_arg1 // 65536) % 256
+                and result.can_id == (g_arg1 // 256) % 256 and result.board_id == g_arg1 % 256
+                and result.buffer_size == g_arg2 % 65536 and result.build_date == g_arg3
+                and result.version_string == 101 and result.version == 102 and result.version_labels == 103)
